@@ -87,7 +87,14 @@ def apply_op(rp, s, kind, op):
             pilots = []
             for pid, cores in zip(op['pids'], op['cores']):
                 known = s._pilots.get(pname(pid), {}).get('state')
-                pilots.append({'uid': pname(pid), 'type': 'pilot', 'state': known or rps.NEW,
+                snap  = known or rps.NEW
+                # the pilot dict of the add_pilots message is a snapshot: it may be older than what the
+                # scheduler already learned from state notifications (never newer here)
+                stale = op.get('stale', 0)
+                if known and stale:
+                    v = rps._pilot_state_values[known]
+                    snap = rps._pilot_state_inv[max(0, min(v, 4) - stale)]
+                pilots.append({'uid': pname(pid), 'type': 'pilot', 'state': snap,
                                'description': {'cores': cores}})
             s.control_cb('control', {'cmd': 'add_pilots', 'arg': {'tmgr': s._tmgr, 'pilots': pilots}})
         elif op['op'] == 'remove':
@@ -140,7 +147,8 @@ def gen_script(rng, kind):
             cand = [p for p in range(npil) if p not in added] or list(range(npil))
             pids = rng.sample(cand, rng.randint(1, min(2, len(cand))))
             if rng.random() < 0.05: pids = [rng.randrange(npil)]           # maybe already added
-            ops.append({'op': 'add', 'pids': pids, 'cores': [rng.choice([1, 2, 4, 8]) for _ in pids]})
+            ops.append({'op': 'add', 'pids': pids, 'cores': [rng.choice([1, 2, 4, 8]) for _ in pids],
+                        'stale': rng.choice([0, 0, 0, 1, 2, 4])})
             added |= set(pids); removed -= set(pids)
         elif r < 0.32 and added:
             pids = rng.sample(sorted(added), 1)
@@ -177,6 +185,8 @@ def run_script(rp, kind, ops):
     s = make_sched(rp, kind)
     res, fwd, cores, named = [], {}, {}, {}
     violations = []
+    seen_val = {}          # pilot -> furthest state value any message carried so far
+    used_state = {}        # pilot -> state value the scheduler tracked after the previous op
     ops = copy.deepcopy(ops)
     for op in ops:
         if op['op'] == 'work':
@@ -192,6 +202,15 @@ def run_script(rp, kind, ops):
         used_before = {pnum(p): (v.get('info') or {}).get('used', 0) for p, v in s._pilots.items()}
         outs, err, rec = apply_op(rp, s, kind, op)
         snap = snapshot(s, kind)
+        if op['op'] == 'pilot_state' and err is None:
+            v = rp.states._pilot_state_values[op['state']]
+            seen_val[op['pid']] = max(seen_val.get(op['pid'], -1), v)
+        for pe in snap['pilots']:
+            was = used_state.get(pe[0])
+            if was is not None and (pe[2] is None or pe[2] < was):
+                violations.append(('pilot-state-moved-backwards', 'the scheduler\'s state of pilot %d went from value %s to %s on %s'
+                                   % (pe[0], was, pe[2], op['op'])))
+            if pe[2] is not None: used_state[pe[0]] = pe[2]
         res.append({'outs': outs, 'err': err, 'state': snap})
         # -- monitor -----------------------------------------------------------------
         for o, r in zip(outs, rec):
@@ -211,6 +230,8 @@ def run_script(rp, kind, ops):
                     start, stop = bf_cfg(rp)['start'], bf_cfg(rp)['stop']
                     if pe[2] is None or not (start <= pe[2] <= stop):
                         violations.append(('bf:pilot-outside-eligible-states', 'task %d -> pilot %d in state value %s' % (u, p, pe[2])))
+                    if seen_val.get(p, -1) > stop:
+                        violations.append(('bf:task-bound-to-final-pilot', 'task %d -> pilot %d which was already reported final' % (u, p)))
         if kind == 'bf':
             # usage just before each assignment of this scheduling call must be below the HWM
             for pe in snap['pilots']:
@@ -308,7 +329,7 @@ def run(ctx):
                 'pilot state notifications (any state, any order), submissions of 1-6 tasks (25% naming a pilot, known or not), '
                 'task state notifications (duplicates, before/after AGENT_EXECUTING); non-trivial = at least one task forwarded')
     ctx.assume += ['each callback is atomic (runs under _pilots_lock/_wait_lock in the code)',
-                   'the pilot dict passed to add_pilots carries the state the scheduler already knows (NEW for a new pilot)',
+                   'the pilot dict passed to add_pilots is a snapshot of the pilot taken at or before the latest notification (it may be stale)',
                    '_assign_pilot does not raise (sandbox derivation is a stub)',
                    'backfilling window/HWM are the module defaults (PMGR_ACTIVE..PMGR_ACTIVE, 200%)']
     ctx.trusted += ['harness/props/c12.py (real RoundRobin/Backfilling via object.__new__, stub session)']
